@@ -2,6 +2,7 @@
 mod alloc_track;
 mod engine;
 mod history;
+mod mutate;
 mod providers;
 mod world;
 mod props;
